@@ -141,6 +141,12 @@ func main() {
 		fmt.Fprintln(bo, "new")
 		fmt.Fprintln(bi, "ok")
 		removed := map[plumbing.Hash]bool{}
+		// the stored object declares a size other than that of its content (storing the same content again repairs it)
+		unreadable := func(h plumbing.Hash) bool {
+			o, ok := st.Blobs[h]
+			want, known := contentOf[h]
+			return ok && known && o.Size() != int64(len(want))
+		}
 		fmt.Fprintf(wo, "cfg %s %s %s\n", skip, rxs, rxe)
 		hid := map[plumbing.Hash]int{}
 		files := map[string]fent{}
@@ -273,6 +279,12 @@ func main() {
 						delete(st.Objects, h)
 						removed[h] = true
 					}
+					// ... or leave them in place but unreadable: the declared size is one byte more than there is to read
+					if e.Name != "" && e.TreeEntry.Mode != filemode.Submodule && !removed[h] && !unreadable(h) && rng.Intn(14) == 0 {
+						if o, ok := st.Blobs[h]; ok {
+							o.SetSize(o.Size() + 1)
+						}
+					}
 				}
 			}
 			ent := func(e object.ChangeEntry) string {
@@ -283,6 +295,8 @@ func main() {
 				}
 				if _, ok := st.Blobs[h]; !ok {
 					f += "x"
+				} else if unreadable(h) {
+					f += "c"
 				}
 				return fmt.Sprintf("%d.%s", id(h), f)
 			}
